@@ -273,6 +273,7 @@ fn env_for(r: &mut Prng, hostile: bool) -> Env {
         context: *r.pick(&[Context::External, Context::InWorker]),
         cpus: *r.pick(&[1usize, 1, 2]),
         envvars_seed: if r.chance(0.3) { r.next_u64() >> 20 } else { 0 },
+        heap_seed: if r.chance(0.3) { r.next_u64() >> 20 } else { 0 },
         replay: None,
     }
 }
